@@ -517,6 +517,80 @@ func checkC05(ctx *Ctx) {
 						res.violateKey(v, c.Construct)
 					}
 				}
+				// the shorthand inside a conjunction with one comparator written at one of its own
+				// documented bounds (before or after it): the shorthand still denotes its interval,
+				// so the conjunction is the interval cut by the comparator.  Bound bookkeeping
+				// ("tightest bound wins") is decided exactly where a bound of the shorthand and an
+				// explicit bound tie.
+				if syn := rangeSyn[name]; syn != nil && len(syn.And) > 0 && !c.Complement && r.Chance(40) &&
+					!strings.Contains(c.Rng, " - ") && !strings.ContainsAny(c.Rng, "[]()|") && strings.TrimSpace(c.Rng) != "" {
+					var bnds []string
+					if c.Hi != "" {
+						bnds = append(bnds, c.Hi, c.Hi)
+					}
+					if c.Lo != "" {
+						bnds = append(bnds, c.Lo)
+					}
+					var ops []string
+					for _, o := range []string{"<=", ">=", "<", ">"} {
+						for _, so := range syn.Ops {
+							if so == o {
+								ops = append(ops, o)
+							}
+						}
+					}
+					if len(bnds) > 0 && len(ops) > 0 {
+						bt, op, sep := r.Pick(bnds), r.Pick(ops), r.Pick(syn.And)
+						bp := e.Parse(bt)
+						rng2 := c.Rng + sep + op + bt
+						if r.Chance(35) {
+							rng2 = op + bt + sep + c.Rng
+						}
+						if pr2 := e.ParseRange(rng2); bp.OK && pr2.OK {
+							perConstruct["in-conjunction"]++
+							for i, pv := range pvals {
+								in := true
+								if lo != nil {
+									x := cmpS(e, pv, lo)
+									in = in && (x > 0 || (x == 0 && c.LoIncl))
+								}
+								if hi != nil {
+									x := cmpS(e, pv, hi)
+									in = in && (x < 0 || (x == 0 && c.HiIncl))
+								}
+								if hiFloor != nil && cmpS(e, pv, hi) < 0 && sameCore(probes[i], c.Hi) {
+									continue
+								}
+								if loFloor != nil && lo != nil && cmpS(e, pv, lo) < 0 && sameCore(probes[i], c.Lo) && strings.ContainsAny(c.Construct, "xX*") {
+									continue
+								}
+								alone, pan0 := e.Contains(pr.Val, pv)
+								if pan0 != "" || alone != in {
+									continue // reported above for the shorthand alone
+								}
+								x := cmpS(e, pv, bp.Val)
+								cut := (op == "<=" && x <= 0) || (op == ">=" && x >= 0) || (op == "<" && x < 0) || (op == ">" && x > 0)
+								// the comparator alone must agree with the order too (else it is C02's matter)
+								if prc := e.ParseRange(op + bt); !prc.OK {
+									continue
+								} else if g, pn := e.Contains(prc.Val, pv); pn != "" || g != cut {
+									continue
+								}
+								got, pan := e.Contains(pr2.Val, pv)
+								res.Evaluations++
+								distinct[name+"\x00"+rng2+"\x00"+probes[i]] = true
+								if pan != "" || got != (in && cut) {
+									v := Violation{Eco: name, Kind: "shorthand-in-conjunction", Input: map[string]any{"range": rng2, "probe": probes[i], "construct": c.Construct, "documented": fmtInterval(c) + " cut by " + op + bt},
+										Expected: fmt.Sprint(in && cut), Actual: fmt.Sprint(got) + pan}
+									if f := findingFor("C05", name, v.Kind, rng2, []string{c.Construct, probes[i]}); f != "" {
+										v.Finding = f
+									}
+									res.violateKey(v, c.Construct+"/conj")
+								}
+							}
+						}
+					}
+				}
 				if it == 0 {
 					res.sample(map[string]any{"eco": name, "range": c.Rng, "documented": fmtInterval(c)})
 				}
